@@ -142,12 +142,12 @@ impl RefBuilder {
 type Builder = GreenNodeBuilder<'static, 'static, K, BoxI>;
 
 pub struct BuilderArea {
-    caches:    Vec<Option<NodeCache<'static, BoxI>>>,
+    pub caches:    Vec<Option<NodeCache<'static, BoxI>>>,
     builder:   Option<(Builder, usize)>,
     refb:      RefBuilder,
     cps:       Vec<(Checkpoint, RefCp)>,
-    greens:    Vec<(GreenNode, usize, String)>,
-    reftrees:  Vec<Option<RefTree>>,
+    pub greens:    Vec<(GreenNode, usize, String)>,
+    pub reftrees:  Vec<Option<RefTree>>,
     addr_map:  HashMap<usize, usize>,
     /// C04 oracle, per cache slot: structural key -> address
     tok_addr:  HashMap<(usize, u32, String), usize>,
@@ -239,6 +239,14 @@ impl BuilderArea {
             }
         }
         a
+    }
+}
+
+impl BuilderArea {
+    /// a cache slot was re-created: its sharing expectations start afresh
+    pub fn forget_sharing(&mut self, slot: usize) {
+        self.tok_addr.retain(|k, _| k.0 != slot);
+        self.node_addr.retain(|k, _| k.0 != slot);
     }
 }
 
@@ -593,7 +601,7 @@ impl Area for BuilderArea {
                     _ => "bad-op".into(),
                 }
             }
-            _ => return None,
+            _ => return self.green_step(ws, cx),
         };
         Some(ans)
     }
